@@ -206,7 +206,10 @@ def concretize_value(v, model, ip):
 class Contract:
     def __init__(self, pid, target, params, requires=(), ensures=(), raises=None, old=None, returns=None,
                  call=None, float_mode=None, modular=False, invariants=None, note="", max_paths=50000,
-                 timeout_ms=None, setup=None, name=None, frame=None, split=None):
+                 timeout_ms=None, setup=None, name=None, frame=None, split=None, model=None, rebuild=None):
+        self.finite_scopes = (2, 3)
+        self.model = model  # modular use: callable(ip, a) producing the result and assuming the postcondition
+        self.rebuild = rebuild  # (model, a, ip) -> concrete argument dict for native replay (heap-based contracts)
         self.split = split
         self.pid = pid
         self.target = target  # dotted name, resolved in /repo on every run
@@ -360,17 +363,22 @@ class FunctionVerifier:
                     eng.assume(zb(v))
                 elif not v:
                     raise PathInfeasible()
-            r, _ = eng.check()
+            r, _ = eng.check(feasibility=True)
             if r == "unsat":
                 raise PathInfeasible()
             old = NS(**{k: fn(a) for k, fn in c.old.items()})
             self.n_paths += 1
             outcome = None
+            def _mid(kind, slug, goal):
+                self.obligation(ip, self._res(kind, slug), goal, a, old, None, kind + " does not hold")
+                if isinstance(goal, Sym):
+                    eng.assume(zb(goal))
+            ip.on_obligation = _mid
             try:
                 if c.call is not None:
                     ret = c.call(ip, fobj, a)
                 else:
-                    ret = ip.call(fobj, [args[n] for n, _ in c.params], {})
+                    ret = ip.call(fobj, [getattr(a, n) for n, _ in c.params], {})
                 outcome = ("ret", ret)
             except PyRaise as e:
                 outcome = ("exc", e)
@@ -438,9 +446,13 @@ class FunctionVerifier:
             except PyRaise as e:
                 v = False
             self.obligation(ip, self._res("ensures", slug), v, a, old, outcome, "postcondition false")
+            if isinstance(v, Sym):
+                self.eng.assume(zb(v))  # assert-then-assume: later clauses may use earlier ones as lemmas (a failure is reported anyway)
 
     def obligation(self, ip, res, goal, a, old, outcome, why):
         eng = self.eng
+        if res.status == "refuted":
+            return  # already has a natively confirmed counterexample
         res.paths += 1
         t0 = time.time()
         if isinstance(goal, Sym):
@@ -458,9 +470,24 @@ class FunctionVerifier:
         if st == "unsat":
             return
         if st == "unknown":
+            # finite-model stage: candidate counter-models in a small scope, validated by native replay
+            if res.status not in ("refuted",) and getattr(self.c, "finite_scopes", (2, 3)):
+                from . import finite
+                for scope in self.c.finite_scopes:
+                    t1 = time.time()
+                    fs, fmodel = finite.find_candidate(list(eng.facts) + list(eng.pc) + [z3.Not(g)], scope=scope)
+                    res.ms += (time.time() - t1) * 1000
+                    if fs == "sat":
+                        cex = self.replay(ip, a, fmodel, res, why, outcome)
+                        cex["back_end"] = "z3 finite-model stage, scope %d" % scope
+                        if cex["confirmed"]:
+                            res.status = "refuted"
+                            res.cex = cex
+                            res.reason = why
+                            return
             if res.status == "proved":
                 res.status = "unknown"
-                res.reason = "solver returned unknown within %d ms" % self.timeout_ms
+                res.reason = "solver returned unknown within %d ms; no counter-model in the finite scopes" % self.timeout_ms
             return
         # refuted: build concrete input and replay on the real function
         if res.status in ("refuted",):
@@ -479,8 +506,11 @@ class FunctionVerifier:
     def replay(self, ip, a, model, res, why, outcome):
         c = self.c
         conc = {}
-        for name, _ in c.params:
-            conc[name] = concretize_value(getattr(a, name), model, ip)
+        if c.rebuild is not None:
+            conc = c.rebuild(model, a, ip)
+        else:
+            for name, _ in c.params:
+                conc[name] = concretize_value(getattr(a, name), model, ip)
         info = {"inputs": {k: _show(v) for k, v in conc.items()}, "path": list(self.eng.choices_desc), "why": why,
                 "symbolic_outcome": _show_outcome(outcome, model)}
         try:
@@ -493,20 +523,34 @@ class FunctionVerifier:
         return info
 
 
-def _show(v):
+def _show(v, depth=0):
     if isinstance(v, (int, float, str, bool, type(None))):
         return v
+    if depth > 3:
+        return "..."
     if isinstance(v, (list, tuple)):
-        return [_show(x) for x in v]
+        return [_show(x, depth + 1) for x in v]
     if isinstance(v, dict):
-        return {str(k): _show(x) for k, x in v.items()}
+        return {str(k): _show(x, depth + 1) for k, x in v.items()}
+    tn = type(v).__name__
+    if tn == "Part" and hasattr(v, "_points"):
+        try:
+            return {"<class>": "Part", "timeline_times": [int(p.t) for p in v._points], "point_quarters": [p.quarter for p in v._points],
+                    "quarter_times": [int(x) for x in v._quarter_times], "quarter_durations": [int(x) for x in v._quarter_durations]}
+        except Exception:
+            return "<Part>"
+    if tn == "TimePoint":
+        return {"<class>": "TimePoint", "t": getattr(v, "t", None), "quarter": getattr(v, "quarter", None)}
     d = getattr(v, "__dict__", None)
     if d is not None:
-        return {"<class>": type(v).__name__, **{k: _show(x) for k, x in d.items() if not k.startswith("__pyv") and not k.startswith("_")}}
+        return {"<class>": tn, **{k: _show(x, depth + 1) for k, x in d.items() if not k.startswith("__pyv") and not k.startswith("_")
+                                    and k not in ("start", "end", "prev", "next")}}
     return repr(v)[:80]
 
 
 def _show_outcome(outcome, model):
+    if outcome is None:
+        return "(obligation inside the body)"
     kind, val = outcome
     if kind == "exc":
         return "raises %s: %s" % (val.exc_type.__name__, val.msg[:120])
@@ -610,6 +654,8 @@ def apply_modular(ip, c, uf, args, kwargs):
         if isinstance(v, Sym):
             ip.eng.assume(zb(v))
     ip.used_trusted.add("contract of " + c.target + " (verified separately)")
+    if c.model is not None:
+        return c.model(ip, a)
     # exceptional outcomes
     excs = list(c.raises.items())
     if excs:
